@@ -132,7 +132,16 @@ func genOutText(tp *simrt.Tape, salt string) string {
 	if strings.TrimSpace(t) == "" {
 		return t
 	}
-	return salt + t // salt: the value is attributable to one execution of one producer
+	// salt: the value is attributable to one execution of one producer. It goes in front or behind, so that
+	// values also begin with '=', digits, upper-case letters, underscores or the characters of their own
+	// variable's name
+	switch tp.Draw(simrt.SGen, 3) {
+	case 0:
+		return salt + t
+	case 1:
+		return pick(tp, "=", "==> ", "OUT_", "T", "0", "_x", "P0:", "OUT_p0=") + t + " #" + salt
+	}
+	return t + " #" + salt
 }
 
 type paramScenario struct {
